@@ -28,6 +28,26 @@ func init() {
 			}, analyzeAssume...),
 		})
 	}
+	flatAssume := []string{
+		"bundles are those of W as produced by the bundle generator (see coverage.rule); every Flatten call runs in a child process with a wall-clock limit",
+		"the resolution of a $ref string relative to its document (jsonreference + net/url + path), the canonical spelling of a definition $ref, the strfmt registry and swag name mangling are external functions whose values are supplied by the real libraries",
+		"input and output documents are compared in the serialization normal form of the spec model (absent == zero value); the x-go-gen-location marker is not part of the meaning",
+	}
+	for _, id := range []string{"C01", "C02", "C03", "C04", "C05", "C06", "C07", "C08", "C09", "C10"} {
+		lvl := "translation_validation"
+		switch id {
+		case "C09":
+			lvl = "fault_enumeration"
+		case "C07", "C08", "C10":
+			lvl = "exploration"
+		}
+		reg(&PropDef{
+			ID: id, Level: lvl, FactsOK: false,
+			LeanModules: []string{},
+			Streams:     []func(*Ctx) StreamResult{flattenStream.Run},
+			Assumptions: flatAssume,
+		})
+	}
 	reg(&PropDef{
 		ID: "C16", Level: "proof", FactsOK: true,
 		LeanModules: []string{"Verif.Properties.C16"},
